@@ -192,7 +192,7 @@ package tree
 //@   loop 1 unroll 1
 
 //@ func (t *AppendOnlyTree) AddLeaf$1
-//@   props C07
+//@   props C07 C01
 //@   requires t != nil
 //@   modifies t.lastIndex
 //@   ensures[undo-step] t.lastIndex == undoStep(old(t.lastIndex))
